@@ -13,22 +13,22 @@ import NibabelModel.Generated.C09
   * `Usable s`    : the end-of-history probe (`get_fdata()`, then `np.asanyarray(img.dataobj)`) succeeds and returns
                     the data the image was loaded with;
   * `allowed` / `allowedRun` : THE GUARD — a save onto the live image's OWN source path keeps the on-disk layout
-                    (dtype, scaling) the proxy was built with.  Every other op and every other save is allowed.
+                    (dtype, byte order, scaling) the proxy was built with.  Every other op and save is allowed.
 
   ONE live image per history (a `load` replaces it); fresh verification loads are `load` on the resulting file system.
 
   FULL STATEMENT (not provable for the code as it is — see `current_stale_source_counterexample`):
       theorem history_safe (s : St) (hw : WF s) (ops : List Op) : Safe s ops
   The guard `allowedRun s ops` is what is missing: after `set_data_dtype` + save onto the image's own source file the
-  live image keeps an ArrayProxy (and possibly a float64 memmap fdata cache) built for the OLD layout of that file
+  live image keeps an ArrayProxy (and possibly a float memmap fdata cache) built for the OLD layout of that file
   (open findings `stale-proxy-…` / `stale-fdata-memmap-…`).  The FILES written are correct without the guard
   (`save_writes_image_state`).
 -/
 namespace Nb.C09
 
-/-- the initial file system of the harness: six files, file i holds data i / affine i, given dtypes -/
-def fs0 (dts : Path → DT) : FS := fun p =>
-  some (.intact { data := (Path.all.idxOf p), aff := (Path.all.idxOf p), dt := dts p, scaled := false, tag := 0 })
+/-- the initial file system of the harness: eleven files, file i holds data i / affine i, given dtypes; `s.img` is an
+    SPM2 Analyze pair, `n.nii` a NIfTI-2 file (`initCls`) -/
+def fs0 (dts : Path → DT) : FS := fun p => some (.intact (initContent p (dts p) false false))
 
 theorem fs0_wf (dts : Path → DT) : WF ⟨fs0 dts, none⟩ :=
   ⟨fun p => by simp [fs0], fun im h => by simp at h⟩
@@ -53,8 +53,13 @@ theorem history_safe_partial (s : St) (hw : WF s) (ops : List Op) (ha : allowedR
 /-- non-vacuity: a 9-step history with self-overwrites of a memory-mapped source, saves to several destinations,
     class conversions NIfTI→MGH→pair and a dtype change that is saved elsewhere satisfies the guard -/
 example : allowedRun ⟨fs0 fun _ => .i16, none⟩
-    [.load .aNii true, .fdata, .save .aNii, .save .aMgz, .setDt .f32, .save .bNii, .save .aImg, .load .aMgz true,
+    [.load .aNii true, .fdata false, .save .aNii, .save .aMgz, .setDt .f32, .save .bNii, .save .aImg, .load .aMgz true,
      .save .aMgz] = true := by decide
+
+/-- … and one through the SPM2 pair, the NIfTI-2 file and the compressed names, with a float32 `get_fdata` -/
+example : allowedRun ⟨fs0 fun _ => .f32, none⟩
+    [.load .sImg true, .fdata true, .save .sImg, .save .cImgGz, .hdrEdit 6, .save .aNiiBz2, .load .nNii true, .fdata false,
+     .save .nNii, .save .aImg, .setAff 7, .save .bNiiZst, .save .nNii] = true := by decide
 
 /-- the executable history runner (the function the driver prints) agrees: under the guard it never emits `bad`,
     produces one outcome per op, and ends in a well-formed state -/
@@ -64,11 +69,18 @@ theorem run_never_bad (s : St) (hw : WF s) (ops : List Op) (ha : allowedRun s op
   run_ok ops s hw ha
 
 /-- WITHOUT the guard: every save (also a layout-changing save onto the image's own memory-mapped source) writes
-    a file that a fresh load decodes to the data and the affine the image had at that save. -/
+    a file that a fresh load decodes to the data and the affine the image had at that save, as an image of the
+    class `save()` converts to, which accepts the extension.
+    NOTE on content: data are ids, so `im2.data = im.data` says "the data written are the ones the proxy of a
+    well-formed image resolves to" — the work is done by the invariant `WF` (`step_safe` re-establishes it), without
+    which `writeTo` yields `bad`;  `im2.aff = im.aff` is the `update_header` decision (`outAff_eq`,
+    `update_header_affine_close`): the file's affine is the best affine of the reconciled header (SPM2: `.mat`). -/
 theorem save_writes_image_state (s : St) (hw : WF s) (im : Img) (hi : s.img = some im) (q : Path) (mm : Bool) :
     (step false s (.save q)).1 = .saved (savedContent im q) ∧
     ∃ im2, load (step false s (.save q)).2.fs q mm = some im2 ∧ im2.data = im.data ∧ im2.aff = im.aff ∧
-      im2.cls = q.cls ∧ ∀ p, p ≠ q → (step false s (.save q)).2.fs p = s.fs p := by
+      im2.cls = outCls im.cls q.ext ∧ im2.cls.validExt q.ext = true ∧
+      (im2.cls ≠ .spm2 → im2.xf.best = im.aff) ∧
+      ∀ p, p ≠ q → (step false s (.save q)).2.fs p = s.fs p := by
   obtain ⟨fs, img⟩ := s
   simp only at hi
   subst hi
@@ -76,29 +88,234 @@ theorem save_writes_image_state (s : St) (hw : WF s) (im : Img) (hi : s.img = so
   simp only [step, withImg, save_cur hok]
   refine ⟨trivial, ?_⟩
   simp only [load, FS.set_same]
-  exact ⟨_, rfl, rfl, rfl, rfl, fun p hp => FS.set_other _ _ hp⟩
+  refine ⟨_, rfl, rfl, rfl, rfl, ?_, ?_, fun p hp => FS.set_other _ _ hp⟩
+  · simp only [savedContent]; cases im.cls <;> cases q.ext <;> rfl
+  · intro hc
+    have h1 := outAff_eq im q
+    simp only [savedContent] at hc
+    simp only [outAff, if_neg hc] at h1
+    exact h1
 
 example : ∃ s im, WF s ∧ s.img = some im ∧ im.mapped = true :=
   ⟨(step false ⟨fs0 fun _ => .f32, none⟩ (.load .aImg true)).2, _, (step_safe _ _ (fs0_wf _) rfl).2.1, rfl, by decide⟩
 
-/-- header affine fields edited directly (`img.header.set_sform(B)` …) do not reach the file: the save after the
-    edit writes exactly what the save without the edit writes — the image's own affine (`update_header()` on the
-    image, or on the `from_image` copy for a converting save). -/
-theorem save_ignores_header_affine_edit (s : St) (hw : WF s) (im : Img) (hi : s.img = some im) (q : Path) (k : Nat) :
-    (step false (step false s (.hdrEdit k)).2 (.save q)).1 = (step false s (.save q)).1 ∧
-    (step false (step false s (.hdrEdit k)).2 (.save q)).2.fs = (step false s (.save q)).2.fs ∧
-    ∃ c, (step false s (.save q)).1 = .saved c ∧ c.aff = im.aff := by
+/-- for the three classes of the original alphabet the class written is the class by extension alone -/
+theorem save_class_by_extension (c : Cls) (hc : c = .nifti1 ∨ c = .pair ∨ c = .mgh) (q : Path) :
+    outCls c q.ext = q.cls := by
+  rcases hc with h | h | h <;> subst h <;> cases q <;> rfl
+
+/-! ### `update_header`: which affine reaches the file -/
+
+/-- THE DECISION RULE of `update_header()` for ANY closeness predicate that is reflexive (`np.allclose`): whatever the
+    header's affine fields held (edited directly, copied by a conversion, or fresh), after `update_header` the
+    header's best affine is close to `img.affine` — kept when it already was, overwritten (`_affine2header`) when not. -/
+theorem update_header_affine_close (close : Nat → Nat → Bool) (hrefl : ∀ a, close a a = true) (c : Cls)
+    (hc : c ≠ .spm2) (a : Nat) (x : XF) :
+    close a (reconcile close c a x).best = true ∧
+    (close a x.best = true → reconcile close c a x = x) ∧
+    (close a x.best = false → reconcile close c a x = affine2header c a x) := by
+  refine ⟨reconcile_best_close close hrefl hc a x, ?_, ?_⟩
+  · intro h; simp [reconcile, hc, h]
+  · intro h; simp [reconcile, hc, h]
+
+example : ∃ (close : Nat → Nat → Bool) (x : XF), (∀ a, close a a = true) ∧ close 5 x.best = false ∧
+    (reconcile close .nifti1 5 x).sc = 2 :=
+  ⟨closeId, ⟨3, 7, 2, 7⟩, fun a => by simp [closeId], by decide, by decide⟩
+
+/-- NIfTI `get_best_affine` precedence: a set sform masks the qform; the qform counts only with `sform_code = 0` -/
+theorem best_affine_precedence (x : XF) :
+    (x.sc ≠ 0 → x.best = x.sa) ∧ (x.sc = 0 → x.qc ≠ 0 → x.best = x.qa) ∧ (x.sc = 0 → x.qc = 0 → x.best = baseAff) := by
+  refine ⟨fun h => by simp [XF.best, h], fun h1 h2 => by simp [XF.best, h1, h2], fun h1 h2 => by simp [XF.best, h1, h2]⟩
+
+/-- any number of direct header edits -/
+def hdrEdits (s : St) : List Nat → St
+  | [] => s
+  | k :: ks => hdrEdits (step false s (.hdrEdit k)).2 ks
+
+theorem hdrEdits_spec (fs : FS) (im : Img) : ∀ ks : List Nat, ∃ x, hdrEdits ⟨fs, some im⟩ ks = ⟨fs, some { im with xf := x }⟩
+  | [] => ⟨im.xf, rfl⟩
+  | k :: ks => by
+      obtain ⟨x, hx⟩ := hdrEdits_spec fs { im with xf := hdrEditXF im.cls k im.xf } ks
+      exact ⟨x, by simpa [hdrEdits, step, withImg] using hx⟩
+
+/-- header affine fields edited directly (`img.header.set_sform(B, 3)`, `set_sform(None, 0); set_qform(B, 2)`, MGH
+    `Mdc/Pxyz_c`, … — ANY number of edits) do not reach the file: the save after the edits writes a file that decodes
+    to the image's own affine, with the same data, dtype, byte order, scaling, tag and class as the save without the
+    edits, and the same other files.  (The transform CODES of the file may differ: a header whose best affine was
+    edited away from `img.affine` is rewritten with sform 'aligned' / qform 'unknown' — `update_header_affine_close`.)
+    This is the `update_header()` decision on the image itself, or on the `from_image` copy for a converting save. -/
+theorem save_ignores_header_affine_edits (s : St) (hw : WF s) (im : Img) (hi : s.img = some im) (q : Path)
+    (ks : List Nat) :
+    ∃ c c', (step false s (.save q)).1 = .saved c ∧ (step false (hdrEdits s ks) (.save q)).1 = .saved c' ∧
+      c.aff = im.aff ∧ c'.aff = im.aff ∧ c'.data = c.data ∧ c'.dt = c.dt ∧ c'.be = c.be ∧ c'.scaled = c.scaled ∧
+      c'.tag = c.tag ∧ c'.cls = c.cls ∧
+      ∀ p, p ≠ q → (step false (hdrEdits s ks) (.save q)).2.fs p = (step false s (.save q)).2.fs p := by
   obtain ⟨fs, img⟩ := s
   simp only at hi
   subst hi
+  obtain ⟨x, hx⟩ := hdrEdits_spec fs im ks
   have hok : ImgOk fs im := hw.2 im rfl
-  have hok' : ImgOk fs { im with hdrAff := k } := ⟨hok.1, hok.2⟩
+  have hok' : ImgOk fs { im with xf := x } := ⟨hok.1, hok.2⟩
+  rw [hx]
   simp only [step, withImg, save_cur hok, save_cur hok']
-  exact ⟨rfl, rfl, _, rfl, rfl⟩
+  refine ⟨_, _, rfl, rfl, rfl, rfl, rfl, ?_, ?_, ?_, ?_, rfl, ?_⟩
+  · simp only [savedContent, outHeader]; split <;> (try split) <;> (try split) <;> rfl
+  · simp only [savedContent, outHeader]; split <;> (try split) <;> (try split) <;> rfl
+  · simp only [savedContent, outScaled, outHeader, Img.arrFloat]
+    split <;> (try split) <;> (try split) <;> rfl
+  · simp only [savedContent, outHeader]; split <;> (try split) <;> (try split) <;> rfl
+  · intro p hp
+    rw [FS.set_other _ _ hp, FS.set_other _ _ hp]
+
+/-- the single-edit form of the above, with the observation that an edit AWAY from the image affine onto a header
+    that agreed with the image leaves even the transform codes of the file as `_affine2header` sets them -/
+theorem save_ignores_header_affine_edit (s : St) (hw : WF s) (im : Img) (hi : s.img = some im) (q : Path) (k : Nat) :
+    ∃ c c', (step false s (.save q)).1 = .saved c ∧ (step false (step false s (.hdrEdit k)).2 (.save q)).1 = .saved c' ∧
+      c.aff = im.aff ∧ c'.aff = im.aff ∧ c'.data = c.data ∧ c'.dt = c.dt ∧ c'.be = c.be ∧ c'.scaled = c.scaled ∧
+      c'.tag = c.tag ∧ c'.cls = c.cls ∧
+      ∀ p, p ≠ q → (step false (step false s (.hdrEdit k)).2 (.save q)).2.fs p = (step false s (.save q)).2.fs p :=
+  save_ignores_header_affine_edits s hw im hi q [k]
 
 example : ∃ s im, WF s ∧ s.img = some im ∧ im.hdrAff ≠ im.aff :=
   ⟨(step false (step false ⟨fs0 fun _ => .i16, none⟩ (.load .aNii true)).2 (.hdrEdit 7)).2, _,
    (step_safe _ _ (step_safe _ _ (fs0_wf _) rfl).2.1 rfl).2.1, rfl, by decide⟩
+
+/-- an edit that leaves the header's best affine EQUAL to the image affine is kept, transform codes included (the
+    `allclose` branch): `load a.nii; img.header.set_sform(img.affine, code=3); save b.nii` writes sform_code 3 -/
+theorem header_edit_kept_when_affine_agrees :
+    (run false ⟨fs0 fun _ => .i16, none⟩ [.load .aNii true, .hdrEdit 0, .save .bNii, .hdrEdit 7, .save .aImg]).1 =
+      [.loadOk, .unit,
+       .saved { cls := .nifti1, data := 0, aff := 0, dt := .i16, be := false, scaled := false, tag := 0, xf := ⟨3, 0, 0, 0⟩ },
+       .unit,
+       .saved { cls := .pair, data := 0, aff := 0, dt := .i16, be := false, scaled := false, tag := 0, xf := ⟨2, 0, 0, 0⟩ }] := by
+  decide
+
+/-! ### class bookkeeping of `save()` -/
+
+/-- the class `save()` writes always accepts the extension (so `converted.to_filename` cannot raise
+    `ImageFileError`), converting once is enough, and an accepted extension never converts -/
+theorem outCls_valid (c : Cls) (e : Ext) :
+    (outCls c e).validExt e = true ∧ outCls (outCls c e) e = outCls c e ∧ (c.validExt e = true → outCls c e = c) := by
+  cases c <;> cases e <;> decide
+
+/-- class invariant: every file holds an image of a class that accepts the file's extension, and the live image
+    is of a class that accepts its source's extension -/
+def ClsWF (s : St) : Prop :=
+  (∀ p c, s.fs p = some (.intact c) → c.cls.validExt p.ext = true) ∧
+  (∀ im, s.img = some im → im.cls.validExt im.src.ext = true)
+
+theorem fs0_clsWF (dts : Path → DT) : ClsWF ⟨fs0 dts, none⟩ := by
+  refine ⟨fun p c h => ?_, fun im h => by simp at h⟩
+  simp only [fs0, Option.some.injEq, File.intact.injEq] at h
+  subst h
+  cases p <;> rfl
+
+/-- every op preserves the class invariant (no guard needed) -/
+theorem step_clsWF (s : St) (op : Op) (hw : WF s) (hc : ClsWF s) : ClsWF (step false s op).2 := by
+  obtain ⟨fs, img⟩ := s
+  obtain ⟨hf, hi⟩ := hc
+  simp only at hf hi
+  cases img with
+  | none =>
+      cases op with
+      | load p mm =>
+          simp only [step]
+          cases hl : load fs p mm with
+          | none => exact ⟨hf, hi⟩
+          | some im =>
+              refine ⟨hf, fun im' h' => ?_⟩
+              simp only [Option.some.injEq] at h'
+              subst h'
+              unfold load at hl
+              split at hl
+              · rename_i c hc'
+                simp only [Option.some.injEq] at hl
+                subst hl
+                exact hf p c hc'
+              · simp at hl
+      | _ => exact ⟨hf, hi⟩
+  | some im =>
+      have hok : ImgOk fs im := hw.2 im rfl
+      have hv : im.cls.validExt im.src.ext = true := hi im rfl
+      have keep : ∀ im1 : Img, im1.cls = im.cls → im1.src = im.src → ClsWF ⟨fs, some im1⟩ := fun im1 h1 h2 =>
+        ⟨hf, fun im' h' => by simp only [Option.some.injEq] at h'; subst h'; rw [h1, h2]; exact hv⟩
+      cases op with
+      | load p mm =>
+          simp only [step]
+          cases hl : load fs p mm with
+          | none => exact ⟨hf, hi⟩
+          | some im2 =>
+              refine ⟨hf, fun im' h' => ?_⟩
+              simp only [Option.some.injEq] at h'
+              subst h'
+              unfold load at hl
+              split at hl
+              · rename_i c hc'
+                simp only [Option.some.injEq] at hl
+                subst hl
+                exact hf p c hc'
+              · simp at hl
+      | fdata w =>
+          obtain ⟨ca, hg, _⟩ := getFdata_ok hok w
+          simp only [step, withImg, hg]
+          exact keep _ rfl rfl
+      | uncache => exact keep _ rfl rfl
+      | edit k => exact keep _ rfl rfl
+      | setAff k =>
+          simp only [step, withImg]
+          cases im.cls.isNifti <;> exact keep _ rfl rfl
+      | hdrEdit k => exact keep _ rfl rfl
+      | setDt dt =>
+          simp only [step, withImg]
+          by_cases h : im.cls = .mgh ∧ mghOk dt = false
+          · simp only [h, and_self, if_true]; exact ⟨hf, hi⟩
+          · simp only [h, if_false]; exact keep _ rfl rfl
+      | toBytes =>
+          simp only [step, withImg]
+          unfold toBytes
+          cases im.cls.hasToBytes
+          · simp only [if_true]; exact ⟨hf, hi⟩
+          · simp only [Bool.true_eq_false, if_false, materialise_deref hok]; exact keep _ rfl rfl
+      | save q =>
+          simp only [step, withImg, save_cur hok]
+          refine ⟨fun p c h => ?_, fun im' h' => ?_⟩
+          · by_cases e : p = q
+            · subst e
+              simp only [FS.set_same, Option.some.injEq, File.intact.injEq] at h
+              subst h
+              exact (outCls_valid im.cls p.ext).1
+            · simp only [FS.set_other _ _ e] at h; exact hf p c h
+          · simp only [Option.some.injEq] at h'
+            subst h'
+            by_cases hc : outCls im.cls q.ext = im.cls
+            · simp only [hc, if_true]; exact hv
+            · simp only [hc, if_false]; exact hv
+
+/-- a save onto the image's own source never converts the class (so it rebinds `file_map` and reconciles the
+    image's OWN header), in every state a history can reach -/
+theorem self_save_keeps_class (s : St) (hc : ClsWF s) (im : Img) (hi : s.img = some im) :
+    outCls im.cls im.src.ext = im.cls :=
+  (outCls_valid im.cls im.src.ext).2.2 (hc.2 im hi)
+
+/-- … along whole histories: the class invariant holds after any allowed history from the harness' file system -/
+theorem run_clsWF : ∀ (ops : List Op) (s : St), WF s → ClsWF s → allowedRun s ops = true →
+    ∃ f, (run false s ops).2 = some f ∧ ClsWF f
+  | [], s, _, hc, _ => ⟨s, rfl, hc⟩
+  | op :: rest, s, hw, hc, ha => by
+      simp only [allowedRun, Bool.and_eq_true] at ha
+      obtain ⟨hspec, hw'⟩ := step_safe_aux s op hw ha.1
+      obtain ⟨f, h3, h4⟩ := run_clsWF rest _ hw' (step_clsWF s op hw hc) ha.2
+      have hne : (step false s op).1 ≠ .bad := hspec.1
+      have hrun : (run false s (op :: rest)).2 = (run false (step false s op).2 rest).2 := by
+        rw [run]
+        generalize step false s op = r at hne
+        obtain ⟨o, s'⟩ := r
+        cases o <;> first | rfl | exact absurd rfl hne
+      exact ⟨f, by rw [hrun]; exact h3, h4⟩
+
+example : ∃ s im, WF s ∧ ClsWF s ∧ s.img = some im ∧ im.cls = .spm2 ∧ im.src = .sImg :=
+  ⟨(step false ⟨fs0 fun _ => .i16, none⟩ (.load .sImg true)).2, _, (step_safe _ _ (fs0_wf _) rfl).2.1,
+   step_clsWF _ _ (fs0_wf _) (fs0_clsWF _), rfl, rfl, rfl⟩
 
 /-! ### the repaired defect -/
 
@@ -107,8 +324,8 @@ example : ∃ s im, WF s ∧ s.img = some im ∧ im.hdrAff ≠ im.aff :=
 theorem orig_self_overwrite_crashes :
     (run true ⟨fs0 fun _ => .i16, none⟩ [.load .aNii true, .save .aNii]).1 = [.loadOk, .bad] := by decide
 
-/-- … and so does EVERY self-overwrite of a memory-mapped source in any well-formed state (all of `.nii`, `.img`,
-    `.mgh`; compressed names and `mmap=False` are not `mapped`). -/
+/-- … and so does EVERY self-overwrite of a memory-mapped source in any well-formed state (all of `.nii`, `.img`
+    incl. the SPM2 pair and NIfTI-2, `.mgh`; compressed names and `mmap=False` are not `mapped`). -/
 theorem orig_self_overwrite_crashes_all_plain (s : St) (hw : WF s) (im : Img) (hi : s.img = some im)
     (hm : im.mapped = true) : (step true s (.save im.src)).1 = .bad := by
   obtain ⟨fs, img⟩ := s
@@ -127,6 +344,10 @@ theorem orig_self_overwrite_crashes_all_plain (s : St) (hw : WF s) (im : Img) (h
 example : ∃ s im, WF s ∧ s.img = some im ∧ im.mapped = true ∧ im.src = .aMgh :=
   ⟨(step false ⟨fs0 fun _ => .i16, none⟩ (.load .aMgh true)).2, _, (step_safe _ _ (fs0_wf _) rfl).2.1, rfl,
    by decide, rfl⟩
+
+example : ∃ s im, WF s ∧ s.img = some im ∧ im.mapped = true ∧ im.src = .sImg ∧ im.cls = .spm2 :=
+  ⟨(step false ⟨fs0 fun _ => .i16, none⟩ (.load .sImg true)).2, _, (step_safe _ _ (fs0_wf _) rfl).2.1, rfl,
+   by decide, rfl, rfl⟩
 
 /-- CURRENT logic on the same histories: the self-overwrite succeeds and writes the image state. -/
 theorem current_self_overwrite_ok (s : St) (hw : WF s) (im : Img) (hi : s.img = some im) :
@@ -152,16 +373,25 @@ example : ∃ s im q, WF s ∧ s.img = some im ∧ q ≠ im.src :=
 /-- `img = load('a.nii')  # int16;  img.set_data_dtype(int32);  save(img, 'a.nii');  img.get_fdata()` — the file
     written is right, the live image reads it through its stale proxy. -/
 theorem current_stale_source_counterexample :
-    (run false ⟨fs0 fun _ => .i16, none⟩ [.load .aNii false, .setDt .i32, .save .aNii, .fdata]).1 =
-      [.loadOk, .dtOk, .saved { data := 0, aff := 0, dt := .i32, scaled := false, tag := 0 }, .bad] ∧
-    allowedRun ⟨fs0 fun _ => .i16, none⟩ [.load .aNii false, .setDt .i32, .save .aNii, .fdata] = false := by
+    (run false ⟨fs0 fun _ => .i16, none⟩ [.load .aNii false, .setDt .i32, .save .aNii, .fdata false]).1 =
+      [.loadOk, .dtOk, .saved { cls := .nifti1, data := 0, aff := 0, dt := .i32, be := false, scaled := false, tag := 0,
+                                xf := ⟨2, 0, 0, 0⟩ }, .bad] ∧
+    allowedRun ⟨fs0 fun _ => .i16, none⟩ [.load .aNii false, .setDt .i32, .save .aNii, .fdata false] = false := by
   decide
 
 /-- float64 + mmap: the cached `get_fdata()` array IS the memmap of the source; after a dtype-changing self-save
     it maps a shorter, re-laid-out file (SIGBUS in the real process). -/
 theorem current_stale_fdata_alias_counterexample :
-    (run false ⟨fs0 fun _ => .f64, none⟩ [.load .aNii true, .fdata, .setDt .i16, .save .aNii, .fdata]).1 =
-      [.loadOk, .fdata 0, .dtOk, .saved { data := 0, aff := 0, dt := .i16, scaled := true, tag := 0 }, .bad] := by
+    (run false ⟨fs0 fun _ => .f64, none⟩ [.load .aNii true, .fdata false, .setDt .i16, .save .aNii, .fdata false]).1 =
+      [.loadOk, .fdata 0, .dtOk, .saved { cls := .nifti1, data := 0, aff := 0, dt := .i16, be := false, scaled := true,
+                                           tag := 0, xf := ⟨2, 0, 0, 0⟩ }, .bad] := by
+  decide
+
+/-- the same through `get_fdata(dtype=np.float32)` on a float32 SPM2 pair -/
+theorem current_stale_fdata_alias_f32_counterexample :
+    (run false ⟨fs0 fun _ => .f32, none⟩ [.load .sImg true, .fdata true, .setDt .i16, .save .sImg, .fdata true]).1 =
+      [.loadOk, .fdata 6, .dtOk, .saved { cls := .spm2, data := 6, aff := 6, dt := .i16, be := false, scaled := true,
+                                           tag := 0, xf := ⟨0, 0, 0, 0⟩ }, .bad] := by
   decide
 
 /-- the guard is TIGHT: a save onto the image's own source that changes the layout always leaves the live image
@@ -172,27 +402,32 @@ theorem guard_is_tight (s : St) (hw : WF s) (im : Img) (hi : s.img = some im) (h
   simp only at hi
   subst hi
   have hok : ImgOk fs im := hw.2 im rfl
-  have hne : ¬ ((outHeader im im.src).1 = im.srcDt ∧ outScaled im im.src = im.srcScaled) := by
+  have hne : ¬ ((outHeader im im.src).1 = im.srcDt ∧ (outHeader im im.src).2.2.1 = im.srcBe ∧
+      outScaled im im.src = im.srcScaled) := by
     intro h
-    simp [layoutKept, h.1, h.2] at hk
-  have hrl : ∀ im' : Img, im'.src = im.src → im'.srcDt = im.srcDt → im'.srcScaled = im.srcScaled →
-      readLayout (fs.set im.src (some (.intact (savedContent im im.src)))) im'.src im'.srcDt im'.srcScaled = none := by
-    intro im' h1 h2 h3
-    rw [h1, h2, h3]
+    simp [layoutKept, h.1, h.2.1, h.2.2] at hk
+  have hrl : ∀ im' : Img, im'.src = im.src → im'.srcDt = im.srcDt → im'.srcBe = im.srcBe → im'.srcScaled = im.srcScaled →
+      readLayout (fs.set im.src (some (.intact (savedContent im im.src)))) im'.src im'.srcDt im'.srcBe im'.srcScaled = none := by
+    intro im' h1 h2 h3 h4
+    rw [h1, h2, h3, h4]
     simp only [readLayout, FS.set_same, savedContent]
     rw [if_neg hne]
   simp only [step, withImg, save_cur hok]
-  have key : ∀ im' : Img, im'.src = im.src → im'.srcDt = im.srcDt → im'.srcScaled = im.srcScaled →
+  have key : ∀ im' : Img, im'.src = im.src → im'.srcDt = im.srcDt → im'.srcBe = im.srcBe → im'.srcScaled = im.srcScaled →
       probe ⟨fs.set im.src (some (.intact (savedContent im im.src))), some im'⟩ = none := by
-    intro im' h1 h2 h3
-    have hr := hrl im' h1 h2 h3
+    intro im' h1 h2 h3 h4
+    have hr := hrl im' h1 h2 h3 h4
     have hmat : materialise (fs.set im.src (some (.intact (savedContent im im.src)))) im' = none := by
       simp [materialise, hr]
     unfold probe getFdata
-    cases hc : im'.cache <;> simp [hc, hmat, hr]
-  by_cases hc : im.src.cls = im.cls
-  · simp only [hc, if_true]; exact key _ rfl rfl rfl
-  · simp only [hc, if_false]; exact key _ rfl rfl rfl
+    simp only [hmat, hr, Option.map_none, Option.bind_none]
+    cases im'.cache with
+    | none => rfl
+    | owned d w => cases w <;> rfl
+    | alias w => cases w <;> rfl
+  by_cases hc : outCls im.cls im.src.ext = im.cls
+  · simp only [hc, if_true]; exact key _ rfl rfl rfl rfl
+  · simp only [hc, if_false]; exact key _ rfl rfl rfl rfl
 
 example : ∃ s im, WF s ∧ s.img = some im ∧ layoutKept im im.src = false :=
   ⟨(step false (step false ⟨fs0 fun _ => .i16, none⟩ (.load .aNii true)).2 (.setDt .i32)).2, _,
@@ -201,9 +436,14 @@ example : ∃ s im, WF s ∧ s.img = some im ∧ layoutKept im im.src = false :=
 /-! ### tables regenerated from the working tree -/
 
 def clsCode : Cls → Nat
-  | .nifti1 => 0 | .pair => 1 | .mgh => 2
+  | .nifti1 => 0 | .pair => 1 | .mgh => 2 | .spm2 => 3 | .nifti2 => 4 | .pair2 => 5
+
+def extCode : Ext → Nat
+  | .nii => 0 | .img => 1 | .mgh => 2
 
 def allDT : List DT := [.u8, .i16, .i32, .f32, .f64]
+
+def allCls : List Cls := [.nifti1, .pair, .mgh, .spm2, .nifti2, .pair2]
 
 /-- the model's class-by-extension table, its "compressed, never mapped" predicate and the MGH dtype set are the
     ones extracted from the source on this run; both `to_file_map` bodies copy a memmap BEFORE the first 'wb' open
@@ -212,5 +452,25 @@ theorem generated_tables_agree :
     Gen.pathTable = Path.all.map (fun p => (clsCode p.cls, p.compressed)) ∧
     Gen.mghDtypes = (List.range 5).filter (fun i => (allDT[i]?.map mghOk) == some true) ∧
     Gen.analyzeCopiesBeforeOpen = true ∧ Gen.mghCopiesBeforeOpen = true := by decide
+
+/-- `klass.valid_exts` looked up in the generated `all_image_classes` table -/
+def genValid (c e : Nat) : Bool := (Gen.classTable.find? (fun r => r.1 == c)).any (fun r => r.2.contains e)
+
+/-- `nibabel.save`'s choice of class, interpreted over the GENERATED tables: own class if the extension is valid,
+    else the special cases (read from the AST of `save`), else the first class of `all_image_classes` with that
+    extension -/
+def genOutCls (c e : Nat) : Nat :=
+  if genValid c e then c
+  else match Gen.saveSpecial.find? (fun t => t.1 == c && t.2.1 == e) with
+    | some t => t.2.2
+    | none => match Gen.classTable.find? (fun r => r.2.contains e) with
+      | some r => r.1
+      | none => 9
+
+/-- the model's conversion rule `outCls`, its `valid_exts` and its `to_bytes` set are the ones of the source -/
+theorem generated_outCls_agree (c : Cls) (e : Ext) :
+    clsCode (outCls c e) = genOutCls (clsCode c) (extCode e) ∧ c.validExt e = genValid (clsCode c) (extCode e) ∧
+    c.hasToBytes = Gen.hasToBytes.contains (clsCode c) := by
+  cases c <;> cases e <;> decide
 
 end Nb.C09
